@@ -487,6 +487,14 @@ func (s *Server) Exec(all []*Session, se *Session, argv []string, tm Time) Exp {
 				return Any("argument type errors are found at queue time by the emulator's grammar parser, at EXEC time by Redis")
 			}
 		}
+		if Known(name) {
+			// a command that fails even against an empty database fails because of its arguments (not an
+			// integer, out of range, bad option): the emulator's grammar finds part of these while queueing,
+			// Redis finds them at EXEC. Which of the two is left open.
+			if e := NewDB().Exec(argv, tm); e.IsErr() {
+				return Any("argument errors are found at queue time by the emulator's grammar parser, at EXEC time by Redis")
+			}
+		}
 		se.Queue = append(se.Queue, argv)
 		return Val(kit.Simple("QUEUED"))
 	}
